@@ -127,6 +127,10 @@ func getLogoutRequestFromRequest(r *http.Request) (*LogoutRequestForm, error) {
 		Encoding:      r.Form.Get("SAMLEncoding"),
 		RelayState:    r.Form.Get("RelayState"),
 	}
+	// HTTP-Redirect binding: DEFLATE is the default encoding and SAMLEncoding may be omitted
+	if _, ok := r.URL.Query()["SAMLRequest"]; ok && request.Encoding == "" {
+		request.Encoding = xml.EncodingDeflate
+	}
 
 	return request, nil
 }
